@@ -271,6 +271,7 @@ bool gen_corpus(vrng *r, gstream *g, char **names, size_t nnames)
 		if (ends_with(p, ".xz")) sub = SK_XZ;
 		else if (ends_with(p, ".lzma")) sub = SK_ALONE;
 		else if (ends_with(p, ".lz")) sub = SK_LZIP;
+		else if (ends_with(p, ".idx")) sub = SK_INDEX;
 		if (sub < 0) continue;
 		if (!load_file(p, &g->data)) continue;
 		if (g->data.n > (1u << 20)) continue;
